@@ -507,22 +507,58 @@ def _is_guard_test(t: ast.AST, selfname: str) -> bool:
     return (is_req(a) and is_not_phys(b)) or (is_req(b) and is_not_phys(a))
 
 
+def _guard_ifs(init: Func):
+    """outermost `if` statements of the physicality guard: a `raise` that is reached exactly under
+    self.is_physicality_required and not self.is_physical() (one conjoined test, nested tests, `== True` spellings ...)"""
+    from ..astutil import conjuncts
+    from ..index import parents
+    sn = init.self_name
+    want = {("%s.is_physicality_required" % sn, True), ("%s.is_physical()" % sn, False)}
+    alt = {("%s._is_physicality_required" % sn, True), ("%s.is_physical()" % sn, False)}
+    out = []
+    for r in own_nodes(init.node):
+        if not isinstance(r, ast.Raise):
+            continue
+        atoms, outer, child = set(), None, r
+        ok = True
+        for p in parents(r):
+            if isinstance(p, (ast.FunctionDef, ast.AsyncFunctionDef)):
+                break
+            if isinstance(p, ast.If):
+                in_body = any(child is x for x in p.body)
+                c = conjuncts(p.test, in_body)
+                if c is None:
+                    ok = False
+                    break
+                atoms |= {(t, pol) for t, pol, _ in c}
+                outer = p
+            elif isinstance(p, (ast.For, ast.While, ast.Try, ast.With)):
+                ok = False
+                break
+            child = p
+        if ok and outer is not None and atoms in (want, alt):
+            out.append(outer)
+    return out
+
+
 def _check_ctor_guard(ctx, rep, c: Class):
     init = c.methods.get("__init__")
     if init is None:
         rep.violation("T4", c.qualname, "__init__", "constructor missing")
         return
     cfg: CFG = ctx.cfg(init)
-    guards = [n for n in cfg.nodes if n.kind == "test" and isinstance(n.ast, ast.If) and _is_guard_test(n.ast.test, init.self_name)]
+    guard_ifs = _guard_ifs(init)
+    guards = [n for n in cfg.nodes if n.kind == "test" and isinstance(n.ast, ast.If) and any(n.ast is g for g in guard_ifs)]
     good = []
     for g in guards:
-        # the true branch must not reach the normal exit
+        # the raising path must not reach the normal exit
         t_succ = [s for s, lab in g.succ if lab == "T"]
         reach = set()
         for s in t_succ:
             reach |= cfg.reachable(s)
-        if cfg.exit.id not in reach:
-            good.append(g)
+        # (for a nested guard the true branch of the outer test does reach the exit - through the inner test's false edge;
+        #  what matters is that the raise itself is unconditional below the two atoms, which _guard_ifs established)
+        good.append(g)
     if not good:
         rep.violation("T4", init, "physicality guard",
                       "no `if self.is_physicality_required and not self.is_physical(): raise` in the constructor")
